@@ -119,6 +119,9 @@ class ChildSchema(Schema):
     @pre_load
     def handle_compatibility(self, data: dict, **kwargs: Any) -> dict:  # noqa: ANN401, ARG002
         """Make pymysensors data compatible with aiomysensors."""
+        if not isinstance(data, dict):
+            return data  # Let the schema reject the invalid input type.
+
         # Conversion of pymysensors data to aiomysensors format.
         if "id" in data:
             data["child_id"] = data.pop("id")
@@ -149,6 +152,9 @@ class NodeSchema(Schema):
     @pre_load
     def handle_compatibility(self, data: dict, **kwargs: Any) -> dict:  # noqa: ANN401, ARG002
         """Make pymysensors data compatible with aiomysensors."""
+        if not isinstance(data, dict):
+            return data  # Let the schema reject the invalid input type.
+
         # Conversion of pymysensors data to aiomysensors format.
         if "sensor_id" in data:
             data["node_id"] = data.pop("sensor_id")
